@@ -28,6 +28,13 @@ def find_unify(prog):
     return cands[0] if len(cands) == 1 else None
 
 
+def walker(prog, body, max_visits=2, **kw):
+    """Path walker over the unification method; private helpers it calls (a binder, a chain walk, ..) are walked into,
+    so the rules see the same paths whether or not parts of `unify` live in helper functions."""
+    import inline
+    return Walker(body, max_visits=max_visits, inline=inline.helpers(prog, keep=("Unifiable::unify", "unify_sfunction")), **kw)
+
+
 def is_param(t, idx):
     t = strip(t)
     return isinstance(t, tuple) and t[0] == "param" and t[1] == idx
@@ -116,7 +123,7 @@ def build(prog, ctx=None, variants=None, max_visits=2):
     # the name under which calls to unify appear (resolved path)
     if ctx is not None and getattr(ctx, "tier", "quick") == "thorough":
         max_visits += 1
-    w = Walker(body, max_visits=max_visits)
+    w = walker(prog, body, max_visits=max_visits)
     selfp = ("param", 1, body.locals[1].get("name") or "")
     otherp = ("param", 2, body.locals[2].get("name") or "")
     table = {}
@@ -164,3 +171,41 @@ def summarize(cell):
                 continue
         out.add(oc)
     return out
+
+
+def anon_elements(path):
+    """Element terms X for which the path established `X is $_` (by `X == Unifiable::Anonymous` or by a pattern /
+    matches! test), other than the two top-level operands."""
+    out = []
+    for e in path.events:
+        if e["k"] != "branch":
+            continue
+        c = e["cond"]
+        x = None
+        if c[0] == "variant" and e["value"] == "Anonymous":
+            x = strip(c[1])
+        elif c[0] == "call" and c[1].endswith("::eq") and e["value"] is True and len(c[2]) == 2:
+            a, b = c[2]
+            if isinstance(b, tuple) and b[0] == "agg" and b[2] == "Anonymous":
+                x = strip(a)
+            elif isinstance(a, tuple) and a[0] == "agg" and a[2] == "Anonymous":
+                x = strip(b)
+        if x is None or is_param(x, 1) or is_param(x, 2):
+            continue
+        out.append(x)
+    return out
+
+
+def functor_position(x):
+    """Is x the element at position 0 of its collection (`v[0]`, or the first item of a forward iteration)?"""
+    import iters
+    pos = iters.position(x)
+    if pos is None:
+        return False
+    key = pos[1]
+    if key[0] == "term":
+        return key[1][0] == "const" and key[1][3] == 0
+    if key[0] == "step" and key[2] == 0:
+        site = key[1][3] if len(key[1]) > 3 else None
+        return bool(site) and site[1] == 0          # first visit of the block holding the next() call
+    return False
